@@ -6,7 +6,9 @@
  * symbolic  : 2 links with independent short/long block sizes (64..8192) and half-rate flag; target position; the page-seek
  *             landing point; up to NPK queued packets with arbitrary short/long flags (no granule positions: mid-page packets)
  * assert    : every block-size query uses the CURRENT link's info (packet sizes and the long-block margin alike);
- *             success => position == (pos>>hs)<<hs exactly, or the stream's total when it ended first; never beyond pos.
+ *             success => position == (pos>>hs)<<hs exactly, or the stream's total when it ended first; never beyond pos;
+ *             success => the decoder was repositioned (no shortcut on a recorded position equal to the target: after _ov_getlap the
+ *             recorded position lags the decoder).
  */
 #include <ogg/ogg.h>
 #ifndef NPK
@@ -33,8 +35,9 @@ int vorbis_synthesis_blockin(vorbis_dsp_state *v,vorbis_block *vb){ return 0; }
 int vorbis_synthesis_pcmout(vorbis_dsp_state *v,float ***pcm){ return g_pending; }
 int vorbis_synthesis_read(vorbis_dsp_state *v,int n){ CHECK(n>=0 && n<=g_pending,"read within what is pending"); g_pending-=n; return 0; }
 #include "vorbisfile.c"
-static ogg_int64_t g_land; static int g_tl;
+static ogg_int64_t g_land; static int g_tl; static int g_paged=0;   /* ghost: the decode machine was repositioned by a page seek */
 int ov_pcm_seek_page(OggVorbis_File *vf,ogg_int64_t pos){
+  g_paged=1;
   if(ND_BOOL()){ vf->pcm_offset=-1; return OV_EREAD; }
   vf->pcm_offset=g_land; vf->current_link=g_tl; vf->ready_state=STREAMSET; env_dsp_live=0; env_blk_live=0; g_head=0; return 0; }
 static ogg_int64_t _get_next_page(OggVorbis_File *vf,ogg_page *og,ogg_int64_t boundary){ return OV_EOF; }     /* bound: the packets needed are on the page(s) already queued */
@@ -55,8 +58,12 @@ void harness(void){
   ASSUME(!g_hs || ((g_land&1)==0 && (pcml[1]&1)==0));   /* bound: at half rate page positions and link lengths are even (odd ones make every later position odd: observation D17, DESIGN section 4) */
   g_n=ND_irange(0,NPK); for(int i=0;i<NPK;i++) g_flags[i]=ND_irange(0,1);
   vf.ready_state=ND_irange(OPENED,INITSET); vf.current_link=ND_irange(0,1);
+  /* the position recorded in the pre-state is arbitrary, in particular it may EQUAL the target: it says nothing about where the
+     decoder stands (_ov_getlap takes samples out of the decoder without updating it before the lapped seeks call this function) */
+  vf.pcm_offset=ND_range(-1,1L<<31); if(vf.pcm_offset==pos && vf.ready_state==INITSET) WITNESS_AT("recorded position already equals the target");
   int r=ov_pcm_seek(&vf,pos);
   if(r==0){
+    CHECK(g_paged,"a successful sample seek repositions the decode machine through the page seek, whatever position the handle recorded before");
     ogg_int64_t want=(pos>>g_hs)<<g_hs;
     CHECK(vf.pcm_offset<=pos || g_total_hit,"never lands beyond the requested position");
     CHECK(vf.pcm_offset==want || (g_total_hit && vf.pcm_offset==total),"lands exactly on the requested sample (even position at half rate), or at the total when the stream ends first");
